@@ -2,16 +2,16 @@ package c10
 
 import (
 	"bytes"
-	"reflect"
-	"unsafe"
 	"fmt"
 	"math/rand/v2"
+	"reflect"
 	"runtime"
 	"strconv"
 	"strings"
 	"sync"
 	"sync/atomic"
 	"time"
+	"unsafe"
 
 	"github.com/anishathalye/porcupine"
 	"github.com/ohler55/slip"
